@@ -6,7 +6,7 @@ NOTE_COMMON = ("Trusted: Lean kernel (axioms propext/Classical.choice/Quot.sound
 
 CLAIMS = {
     "C02": {
-        "level": "PARTIAL. The oracle is real Vim: a committed recording of Vim 9.0 on 214 934 cases (every buffer over a 5-symbol alphabet up to length 3 x every "
+        "level": "PARTIAL. The oracle is real Vim: a committed recording of Vim 9.0 on 274 547 cases (every buffer over a 5-symbol alphabet up to length 3 x every "
                  "cursor x 641 commands of the supported subset with counts, plus realistic multi-line and multi-byte records with 1-3 command sequences) is replayed "
                  "on vicut through the key loop and compared on text and cursor; the deviations present on the current tree are pinned by corpus id (one open finding), "
                  "any other deviating case is a violation with the case as replay; a sample is re-recorded with /usr/bin/vim on every run to check the recording. "
@@ -17,7 +17,7 @@ CLAIMS = {
                  "VimSpec's text for [n]x and [n]X. VimSpec itself is compared with the recorded Vim on every case of its fragment.",
         "note": NOTE_COMMON + " This property is conformance to an external program over a finite recorded corpus: outside the VimSpec fragment the replay is a differential "
                 "test, not a proof, and is labelled as such. 33% of the corpus deviated at the pinned commit (70 717 cases: line-end and final-newline handling, whole-line "
-                "commands, put, word/sentence/paragraph objects and motions); the root causes were repaired in 27 fix commits and 5% (11 193 cases) is left, recorded by corpus id.",
+                "commands, put, word/sentence/paragraph objects and motions); the root causes were repaired in 27 fix commits and 4% of the first corpus (11 193 of 214 934 cases) is left; a multi-line family recorded afterwards (59 613 cases) adds 4 656 more; all recorded by corpus id.",
         "technique": "recorded-oracle differential replay (Vim 9 corpus) + Lean 4 proofs: laws of the VimSpec fragment and conformance of the vicut model with it; VimSpec validated against the corpus",
     },
     "C10": {
